@@ -396,10 +396,36 @@ class UncontendedOracle:
         self.asg = []
 
     def on_tick(self, R, ex, sus, asg, res):
+        from . import model as M
+        from .common import Discard
         for a in asg:
             self.asg.append((R.tick, [R.okey(o) for o in a.ops], a.cpu))
-        if any(r.failed() for r in res):
+            self.by_ops = getattr(self, "by_ops", {})
+            self.by_ops[id(a.ops)] = ([R.okey(o) for o in a.ops], a.cpu, a.ram)
+            R.hold.append(a.ops)
+        for r in res:
+            if not r.failed():
+                continue
             self.failed = True
+            known = getattr(self, "by_ops", {}).get(id(r.ops))
+            if known is None or len(R.pipes) != 1:
+                continue
+            # "with enough memory": a container whose allocation covers the largest demand of every operator it holds
+            # must not fail
+            keys, cpu, ram = known
+            pd = R.scn["pipes"][0]
+            try:
+                peak = M.F(0)
+                for (pi, oi) in keys:
+                    segs = [(M.frac(b), law, None if mem is None else M.frac(mem), M.frac(read)) for (b, law, mem, read) in pd["ops"][oi]["segs"]]
+                    op = M.MOp((0, oi), segs, [])
+                    plan = M.op_plan(op, M.frac(cpu), R.cfg["tps"], M.Arith(False))
+                    peak = max([peak] + [(m if m is not M.FREE else op.peak()) for m in plan])
+            except Discard:
+                continue
+            if peak <= M.frac(float(ram)) * (1 - M.F(1, 10 ** 9)):
+                raise Violation("C06.uncontended.failed_with_enough_memory", {
+                    "algo": R.cfg["algo"], "error": r.error, "allocation": ram, "largest_demand": float(peak), "ops": [k[1] for k in keys]}, R.tick)
 
     def on_end(self, R, stats):
         from . import model as M
